@@ -1,0 +1,30 @@
+//go:build verif
+
+// Contracts for sha256verifier.go, checked by /verif (govc). Comment-only file.
+//
+// hStream / hN (extern_contracts_verif.go) are the bytes, and their number, fed to the
+// running hash since it was created. The multi-writer is an io.Writer whose first target
+// is the hash: every Write hands all of p to the hash (ASSUMED, io.MultiWriter).
+
+package sha256verifier
+
+//@ func New(expectedHash string, expectedSize int64, writeCloser io.WriteCloser) *sha256verifier
+//@   serves C01
+//@   modifies hStream, hN
+//@   ensures[C01] fresh: result != nil && !old(allocated(result)) && result.expectedHash == expectedHash && result.expectedSize == expectedSize &&
+//@       result.actualSize == 0 && result.multiWriter != nil && result.Hash != nil && result.originalWriteCloser == writeCloser
+//@   ensures[C01] empty: hN == 0 && hStream == sempty()
+
+//@ func (s *sha256verifier) Write(p []byte) (int, error)
+//@   serves C01
+//@   requires s != nil && s.multiWriter != nil && 0 <= s.actualSize && s.actualSize <= 2305843009213693952
+//@   modifies s.actualSize, hStream, hN
+//@   ensures[C01] counted: s.actualSize == old(s.actualSize) + (result0 > 0 ? result0 : 0)
+//@   ensures[C01] hashed: hN == old(hN) + len(p) && hStream == sapp(old(hStream), elems(p), offset(p), len(p))
+//@   ensures[C01] all: result1 == nil ==> result0 == len(p)
+
+//@ func (s *sha256verifier) Close() error
+//@   serves C01
+//@   requires s != nil && s.Hash != nil && s.originalWriteCloser != nil
+//@   ensures[C01] verified: result == nil ==> (s.actualSize == s.expectedSize && s.expectedHash == hexsum(hStream))
+//@   call Close#* asserts[C01] checkedfirst: s.actualSize == s.expectedSize && s.expectedHash == hexsum(hStream) && arg0 == s.originalWriteCloser
